@@ -41,7 +41,7 @@ impl<const N: usize> crate::ogre_std::ogre_queues::atomic::atomic_move::verif_ho
 }
 
 #[cfg(kani)]
-mod proofs {
+pub(crate) mod proofs {
     use super::*;
 
     fn any_state<const N: usize>() -> FsState {
